@@ -199,9 +199,11 @@ def isolated_pool_case(ctx, outcomes, workers, work, consume_in_body, show=False
     if line is None:
         raise common.Infra(f"pool case driver produced no result: {so[-200:]} {se[-400:]}")
     res = json.loads(line[7:])
-    died = any(o in ("die", "dielock") for o in outcomes)
+    died = any(o in ("die", "dielock", "killidle") for o in outcomes)
     if bad and res["raised"] is None:
-        ctx.violate(f"outcomes {outcomes} with {workers} workers: command reported success", inp, "error", res)
+        missing = sorted(set(res.get("expected_done", [])) - set(res["done"]))
+        ctx.violate(f"outcomes {outcomes} with {workers} workers: command reported success"
+                    + (f" although tasks {missing} never ran" if missing else ""), inp, "error", res)
     elif died and res["raised"] not in ("RuntimeError", "BrokenProcessPool", "KeyError"):
         ctx.violate(f"outcomes {outcomes} with {workers} workers: a dead worker surfaced as {res['raised']}", inp, "RuntimeError", res)
     if not bad and (res["raised"] is not None or res["done"] != list(range(len(outcomes)))):
@@ -428,6 +430,10 @@ def run(ctx):
                     o[pos] = "dielock"
                     for show in (False, True):
                         isolated_pool_case(ctx, o, w, work, body, show)
+        # an idle worker is killed between two bursts of submissions (slow producer)
+        for w in ((1, 2, 4) if ctx.thorough else (2,)):
+            isolated_pool_case(ctx, ["ok"] * (2 * w) + ["killidle"] + ["ok"] * 4, w, work, False)
+            isolated_pool_case(ctx, ["ok"] * w + ["killidle"] + ["ok"] * 3, w, work, True)
         pool_case(ctx, ["ok", 4, "ok", "ok"], 2, work, rng, consume_in_body=True)
         pool_case(ctx, ["ok"] * 5, 2, work, rng, consume_in_body=True)
         exit_steps_case(ctx)
